@@ -1,0 +1,50 @@
+//go:build verif
+
+// Machine-checked contracts for package encryption (comment-only; see /verif/DESIGN.md).
+
+package encryption
+
+// Sealed layout:  [n] ‖ wrapped DEK (n bytes) ‖ nonce (12) ‖ ciphertext+tag
+//@ pure func wrapLen(n int) int = 8*((n+7)/8) + 8
+
+//@ func (*LocalEncryptionHandler).generateDEK serves C17
+//@   returns (key, err)
+//@   safety
+//@   ensures err == nil ==> len(key) == 32
+
+//@ func (*LocalEncryptionHandler).encryptData serves C17
+//@   returns (ct, err)
+//@   safety
+//@   ensures [length] err == nil ==> len(ct) == 12 + len(plaintextData) + 16
+
+//@ func (*LocalEncryptionHandler).decryptData serves C17
+//@   returns (pt, err)
+//@   safety
+
+//@ func (*LocalEncryptionHandler).wrapDEK serves C17
+//@   returns (w, err)
+//@   requires handler != nil && handler.keyWrapper != nil
+//@   safety
+//@   ensures err == nil ==> len(w) == wrapLen(len(dek))
+
+//@ func (*LocalEncryptionHandler).unwrapDEK serves C17
+//@   returns (k, err)
+//@   requires handler != nil && handler.keyWrapper != nil
+//@   safety
+
+// Seal: the first byte really is the length of the wrapped key (no truncation by byte()),
+// and the output has room for exactly key-size byte, wrapped key, nonce, ciphertext and tag.
+//@ func (*LocalEncryptionHandler).Seal serves C17
+//@   returns (out, err)
+//@   requires handler != nil && handler.keyWrapper != nil
+//@   requires isnil(handler.defaultDEK) || len(handler.defaultDEK) == 32
+//@   safety
+//@   ensures [dek] err == nil ==> len(handler.defaultDEK) == 32
+//@   ensures [layout] err == nil ==> len(out) == 1 + 40 + 12 + len(data) + 16 && int(out[0]) == 40
+
+// Read is total: for EVERY byte string it returns plaintext or an error, it never panics.
+//@ func (*LocalEncryptionHandler).Read serves C17
+//@   returns (pt, err)
+//@   requires handler != nil && handler.keyWrapper != nil
+//@   safety
+//@   ensures [short-rejected] len(encryptedData) < 1 || len(encryptedData) < 1 + int(encryptedData[0]) + 12 + 16 ==> err != nil
